@@ -175,12 +175,19 @@ Lemma rf_loop_S f w st pkt n err k calls :
   else finish n (if (0 <? nr)%nat then Some E.InvalidPacketLength else err) k calls.
 Proof. reflexivity. Qed.
 
+(* the repaired loop cannot tell a reader's own io.ErrUnexpectedEOF from io.ReadFull's: it is
+   treated as io.EOF *)
+Definition norm_err (e : N) : N := if (e =? E.UnexpectedEOF)%N then E.EOF else e.
+
+Lemma norm_err_id e : e <> E.UnexpectedEOF -> norm_err e = e.
+Proof. intro H. unfold norm_err. destruct (N.eqb_spec e E.UnexpectedEOF); [contradiction|reflexivity]. Qed.
+
 Lemma rf_loop_spec w : forall fuel st pkt n k calls,
-  length (st_data st) < fuel -> length pkt = PacketSize -> st_err st <> E.UnexpectedEOF ->
+  length (st_data st) < fuel -> length pkt = PacketSize ->
   rf_loop fuel w st pkt n None k calls
-  = Ok (rf_spec w (full_chunks (st_data st)) (tail (st_data st)) (st_err st) n k calls).
+  = Ok (rf_spec w (full_chunks (st_data st)) (tail (st_data st)) (norm_err (st_err st)) n k calls).
 Proof.
-  induction fuel as [|f IH]; intros st pkt n k calls Hf Hp Hu; [lia|].
+  induction fuel as [|f IH]; intros st pkt n k calls Hf Hp; [lia|].
   rewrite rf_loop_S.
   destruct (read_full_spec st) as [st' [Hr [Hd He]]]. rewrite Hr. cbn [bind].
   set (D := st_data st) in *. set (Ee := st_err st) in *.
@@ -198,14 +205,15 @@ Proof.
     + rewrite Hd, He. reflexivity.
     + rewrite Hd, skipn_length. rewrite PSm_val in *. lia.
     + exact Hl.
-    + rewrite He. exact Hu.
   - (* the data ends: fewer than 188 bytes are left *)
     rewrite firstn_all2 by lia.
     rewrite full_chunks_lt, tail_lt by exact Hlt. cbn [rf_spec].
     destruct (Nat.eqb_spec (length D) PacketSize) as [Hx|_]; [lia|].
+    unfold norm_err.
     destruct (N.eqb_spec Ee E.EOF) as [HE|HE].
     + (* clean end of stream *)
       rewrite andb_true_r. rewrite ?HE.
+      change (E.EOF =? E.UnexpectedEOF)%N with false. cbv iota.
       destruct D as [|d D'].
       * cbn [length]. change (0 <? 0) with false. cbv iota.
         change (E.EOF =? E.UnexpectedEOF)%N with false. cbv iota.
@@ -215,8 +223,9 @@ Proof.
         change (E.EOF =? E.EOF)%N with true. reflexivity.
     + (* the reader failed *)
       rewrite andb_false_r.
-      destruct (N.eqb_spec Ee E.UnexpectedEOF) as [HU|_]; [contradiction|].
-      destruct (N.eqb_spec Ee E.EOF) as [HE'|_]; [contradiction|]. reflexivity.
+      destruct (N.eqb_spec Ee E.UnexpectedEOF) as [HU|HU].
+      * change (E.EOF =? E.EOF)%N with true. cbv iota. destruct D; reflexivity.
+      * destruct (N.eqb_spec Ee E.EOF) as [HE'|_]; [contradiction|]. reflexivity.
 Qed.
 
 Lemma script_len_data s : script_len s = length (script_data s).
@@ -225,13 +234,20 @@ Proof.
   rewrite app_length, IH. reflexivity.
 Qed.
 
+Lemma read_from_general w pkt s : length pkt = PacketSize ->
+  read_from w pkt s
+  = Ok (rf_spec w (full_chunks (script_data s)) (tail (script_data s)) (norm_err (script_err s)) 0%Z 0 []).
+Proof.
+  intros Hp. unfold read_from.
+  apply (rf_loop_spec w (S (script_len s)) (Script s)); cbn [st_data st_err]; auto.
+  rewrite script_len_data. lia.
+Qed.
+
 Lemma read_from_spec w pkt s : length pkt = PacketSize -> script_err s <> E.UnexpectedEOF ->
   read_from w pkt s
   = Ok (rf_spec w (full_chunks (script_data s)) (tail (script_data s)) (script_err s) 0%Z 0 []).
 Proof.
-  intros Hp Hu. unfold read_from.
-  apply (rf_loop_spec w (S (script_len s)) (Script s)); cbn [st_data st_err]; auto.
-  rewrite script_len_data. lia.
+  intros Hp Hu. rewrite read_from_general by exact Hp. rewrite norm_err_id by exact Hu. reflexivity.
 Qed.
 
 (* ---- corollaries over rf_spec ---- *)
@@ -300,39 +316,11 @@ Proof.
   rewrite (rf_spec_fail w _ _ _ 0%Z 0 [] kf m x Hk Hok Hf). reflexivity.
 Qed.
 
-(* C05: ReadFrom is total for every script and every writer oracle (also when the reader's own
-   error is io.ErrUnexpectedEOF: shown separately because rf_loop_spec excludes that error) *)
-Lemma rf_loop_total w : forall fuel st pkt n err k calls,
-  length (st_data st) < fuel -> length pkt = PacketSize ->
-  exists r, rf_loop fuel w st pkt n err k calls = Ok r.
-Proof.
-  induction fuel as [|f IH]; intros st pkt n err k calls Hf Hp; [lia|].
-  rewrite rf_loop_S.
-  destruct (read_full_spec st) as [st' [Hr [Hd He]]]. rewrite Hr. cbn [bind].
-  destruct (Nat.eqb_spec (length (firstn PacketSize (st_data st))) PacketSize) as [Hl|Hl].
-  - assert (Hge : PacketSize <= length (st_data st)).
-    { rewrite firstn_length in Hl. lia. }
-    destruct (w k _) as [nw [x|]]; [eauto|].
-    destruct (negb (nw =? 188)%Z); [eauto|].
-    unfold ral_err. cbn [length]. rewrite Nat.sub_0_r.
-    destruct (Nat.leb_spec PacketSize (length (st_data st))); [|lia].
-    apply IH.
-    + rewrite Hd, skipn_length. rewrite PSm_val in *. lia.
-    + rewrite blit_exact by (rewrite Hl; exact Hp). exact Hl.
-  - unfold ral_err. cbn [length]. rewrite Nat.sub_0_r.
-    destruct (Nat.leb_spec PacketSize (length (st_data st))) as [Hge|Hlt].
-    + exfalso. apply Hl. rewrite firstn_length. lia.
-    + destruct ((0 <? length ([] ++ st_data st)) && (st_err st =? E.EOF)%N);
-      match goal with |- context [(?a =? E.UnexpectedEOF)%N] => destruct (a =? E.UnexpectedEOF)%N end; eauto.
-Qed.
-
+(* C05: ReadFrom is total for every script (whatever its error) and every writer oracle *)
 Lemma read_from_total w pkt s : length pkt = PacketSize ->
   read_from w pkt s <> Panic /\ read_from w pkt s <> Diverge.
 Proof.
-  intro Hp. unfold read_from.
-  destruct (rf_loop_total w (S (script_len s)) (Script s) pkt 0%Z None 0 []) as [r Hr];
-    [cbn [st_data]; rewrite script_len_data; lia|exact Hp|].
-  rewrite Hr. split; discriminate.
+  intro Hp. rewrite read_from_general by exact Hp. split; discriminate.
 Qed.
 
 (* weakness of the candidate repair (notes/findings/C18.md): a reader whose OWN error is
@@ -343,4 +331,15 @@ Lemma read_from_unexpected_eof_swallowed :
 Proof.
   exists (fun _ _ => (188%Z, None)), [([], Some E.UnexpectedEOF)].
   split; [reflexivity|]. split; reflexivity.
+Qed.
+
+(* F2 (DESIGN section 7): ReadFrom as pinned in /repo loses packets over a fragmenting reader.
+   Witness: one packet delivered in two 94-byte reads — nothing is delivered, invalid length. *)
+Lemma f2_pinned_refuted :
+  exists w s, (forall j c, w j c = (188%Z, None)) /\ script_err s = E.EOF /\
+    full_chunks (script_data s) = [script_data s] /\ tail (script_data s) = [] /\
+    read_from_pinned w pkt0 s = Ok (0%Z, Some E.InvalidPacketLength, []).
+Proof.
+  exists (fun _ _ => (188%Z, None)), [(repeat 1%N 94, None); (repeat 2%N 94, None)].
+  split; [reflexivity|]. vm_compute. repeat split.
 Qed.
